@@ -199,6 +199,141 @@ impl Subject for IpqSubject {
     }
 }
 
+/// Deterministic *regime* sequences: fill the keyed queue with n entries
+/// (n around every power of two up to 4096), drain it in one of three ways,
+/// refill it with m entries, then present every key ever issued: a stale key
+/// must never remove anything, a live key removes exactly its own entry.
+pub fn check_ipq_regimes() -> Outcome {
+    let mut sizes: Vec<usize> = (1..=40).collect();
+    for p in [64usize, 128, 256, 512, 1024, 2048, 4096] {
+        sizes.extend([p - 1, p, p + 1]);
+    }
+    let mut traces = 0u64;
+    let mut transitions = 0u64;
+    let mut mismatch = None;
+    'outer: for &n in &sizes {
+        for drain in 0..3 {
+            for &m in &[1usize, 3, n.min(70)] {
+                let mut s = IpqSubject::fresh(&());
+                let mut hist: Vec<String> = vec![format!("n={} drain={} m={}", n, drain, m)];
+                let mut step = |s: &mut IpqSubject, op: IpqOp, hist: &mut Vec<String>| -> Result<(), String> {
+                    transitions += 1;
+                    match s.apply(&op) {
+                        Ok(_) => Ok(()),
+                        Err(e) => {
+                            hist.push(format!("{:?}", op));
+                            Err(e)
+                        }
+                    }
+                };
+                let r: Result<(), String> = (|| {
+                    for i in 0..n {
+                        step(&mut s, IpqOp::Insert((i % 2) as u8), &mut hist)?;
+                    }
+                    match drain {
+                        0 => {
+                            for _ in 0..n {
+                                step(&mut s, IpqOp::Pull, &mut hist)?;
+                            }
+                        }
+                        1 => {
+                            for i in 0..n {
+                                step(&mut s, IpqOp::Extract(i), &mut hist)?;
+                            }
+                        }
+                        _ => {
+                            for i in (0..n).rev() {
+                                step(&mut s, IpqOp::Extract(i), &mut hist)?;
+                            }
+                        }
+                    }
+                    for i in 0..m {
+                        step(&mut s, IpqOp::Insert((i % 2) as u8), &mut hist)?;
+                    }
+                    // Every key ever issued, oldest first (stale ones first).
+                    for i in 0..n + m {
+                        step(&mut s, IpqOp::Extract(i), &mut hist)?;
+                    }
+                    step(&mut s, IpqOp::Pull, &mut hist)?;
+                    Ok(())
+                })();
+                traces += 1;
+                if let Err(e) = r {
+                    mismatch = Some(crate::Mismatch { history: hist, msg: e });
+                    break 'outer;
+                }
+            }
+        }
+    }
+    Outcome {
+        name: "indexed_priority_queue_regimes",
+        states: sizes.len() as u64,
+        transitions,
+        traces,
+        depth: 4097,
+        distinct_observations: sizes.len() as u64,
+        mismatch,
+        sample: serde_json::json!({"structure": "indexed_priority_queue_regimes", "sizes": "1..40 and 2^k-1, 2^k, 2^k+1 for k=6..12", "drains": ["pull all", "extract in order", "extract in reverse"]}),
+    }
+}
+
+/// The same for the plain queue: after any drain, insertion order among equal
+/// keys must still decide.
+pub fn check_pq_regimes() -> Outcome {
+    let mut sizes: Vec<usize> = (1..=40).collect();
+    for p in [64usize, 128, 256, 512, 1024, 2048, 4096] {
+        sizes.extend([p - 1, p, p + 1]);
+    }
+    let mut traces = 0u64;
+    let mut transitions = 0u64;
+    let mut mismatch = None;
+    'outer: for &n in &sizes {
+        for leave in [0usize, 1, 2] {
+            let mut s = PqSubject::fresh(&());
+            let mut hist = vec![format!("n={} leave={}", n, leave)];
+            let r: Result<(), String> = (|| {
+                let mut ops: Vec<PqOp> = vec![];
+                for i in 0..n {
+                    ops.push(PqOp::Insert((i % 3) as u8));
+                }
+                for _ in 0..n.saturating_sub(leave) {
+                    ops.push(PqOp::Pull);
+                }
+                for i in 0..6 {
+                    ops.push(PqOp::Insert((i % 2) as u8));
+                    ops.push(PqOp::Peek);
+                }
+                for _ in 0..8 + leave {
+                    ops.push(PqOp::Pull);
+                }
+                for op in ops {
+                    transitions += 1;
+                    if let Err(e) = s.apply(&op) {
+                        hist.push(format!("{:?}", op));
+                        return Err(e);
+                    }
+                }
+                Ok(())
+            })();
+            traces += 1;
+            if let Err(e) = r {
+                mismatch = Some(crate::Mismatch { history: hist, msg: e });
+                break 'outer;
+            }
+        }
+    }
+    Outcome {
+        name: "priority_queue_regimes",
+        states: sizes.len() as u64,
+        transitions,
+        traces,
+        depth: 4097,
+        distinct_observations: sizes.len() as u64,
+        mismatch,
+        sample: serde_json::json!({"structure": "priority_queue_regimes", "sizes": "1..40 and 2^k-1, 2^k, 2^k+1 for k=6..12"}),
+    }
+}
+
 pub fn check_ipq(depth: usize) -> Outcome {
     explore::<IpqSubject>("indexed_priority_queue", &[()], depth)
 }
